@@ -92,6 +92,9 @@ var c19GoodPatterns = []c19Pat{
 	{`\.internal$`, "db.internal"},
 	{`(?i)^metadata\.`, "Metadata.google.example"},
 	{`^intranet$`, "intranet"},
+	// class escapes whose meaning depends on the letter's case (\D non-digit vs \d digit, \S vs \s)
+	{`^\D+\.corp\.example$`, "files.corp.example"},
+	{`^svc-\S+\.lan$`, "svc-7.lan"},
 }
 var c19BadPatterns = []c19Pat{
 	{"(", ""},
@@ -108,6 +111,8 @@ var c19Names = map[string]string{
 	"db.internal":             "10.20.30.40",
 	"metadata.google.example": "169.254.169.254",
 	"intranet":                "192.168.1.1",
+	"files.corp.example":      "203.0.113.81",
+	"svc-7.lan":               "203.0.113.82",
 }
 
 // fixed probe set of the reload differential
@@ -115,7 +120,7 @@ var c19CovertProbes = []string{
 	"10.1.2.3:443", "192.168.7.7:443", "172.16.5.5:80", "[fd00::1]:443", "198.18.0.1:443", "169.254.169.254:80",
 	"[2001:db8:aa::5]:443", "203.0.113.9:443", "[2001:db8:ffff::9]:443", "10.0.0.0:443",
 	"localhost:443", "db.internal:443", "Metadata.google.example:80", "intranet:443",
-	"ok.example.net:443", "rebind.example.net:443", "v6.example.net:443", "nxdomain.example.net:443",
+	"files.corp.example:443", "svc-7.lan:443", "ok.example.net:443", "rebind.example.net:443", "v6.example.net:443", "nxdomain.example.net:443",
 	"203.0.113.9", "203.0.113.9:99999",
 }
 var c19PhantomProbes = []string{
